@@ -214,6 +214,6 @@ m = dict(version=1,
          engines=[dict(name="coq-correspondence", path="check", serves_properties=sorted(CLAIMED),
                        kind_free_text="Coq 8.16.1 models + theorems (coq/), Python correspondence harness (harness/) evaluating the models with vm_compute")],
          checks=checks, not_applicable=na,
-         notes="See DESIGN.md. Every check: (1) full .vo build + Props/<id>.v re-checked with Print Assumptions, (2) correspondence of the proved model with /repo.")
+         notes="See DESIGN.md. Every check: (1) full .vo build + Props/<id>.v re-checked with Print Assumptions, (2) correspondence of the proved model with /repo (XPLIQUE_REPO selects another tree; VERIF_SEED another PRNG seed). seeded/: 148 independently written property-breaking changes, all caught (tools/rerun_seeded.sh); harmless/: 40 independently written behaviour-preserving rewrites, all silent (tools/rerun_harmless.sh); known_findings.json: fixed and known findings.")
 (HERE / "MANIFEST.json").write_text(json.dumps(m, indent=1) + "\n")
 print("claimed", sorted(CLAIMED), "pending", len(na))
